@@ -144,7 +144,18 @@ class Layout:
         self.end_amr[c], self.end_hydro[c] = wa.pos, wh.pos
         return out
 
-    def expected(self, lib, info, lmax=None, cpus=None, actual_masks=None):
+    def amr_end_after_levels(self, c, lmax):
+        """byte position in the AMR file of cpu c after the blocks of levels 1..lmax"""
+        wa = G.Walker(self.hdr[c]["end"])
+        for l in range(lmax):
+            for d in range(self.ndom):
+                g = self.numb[c][(l, d)]
+                if isinstance(g, int) and g == 0:
+                    continue
+                G.amr_block(wa, g, self.ndim)
+        return wa.pos
+
+    def expected(self, lib, info, lmax=None, cpus=None, actual_masks=None, level_pred=None):
         """dict variable -> (list of piece arrays in order) rebuilt from the grammar.  `actual_masks`:
         the selection masks the code built, in block order; each is proved to be the leaf mask and is
         then used to select the expected rows (so that code and specification share one row map)"""
@@ -177,7 +188,10 @@ class Layout:
                         out = val if out is None else core.ite(SV.lift(idx[0]) < (ind + 1) * g, val, out)
                     return out
 
-                if l < lmax - 1:
+                keep = True if level_pred is None else bool(level_pred(l + 1))
+                if not keep:
+                    mask = snp.ndarray.from_elem(lambda idx: False, (n,), "bool")
+                elif l < lmax - 1:
                     mask = snp.ndarray.from_elem(lambda idx, s=son_at: ~(s(idx) > 0), (n,), "bool")
                 else:
                     mask = snp.ndarray.from_elem(lambda idx: True, (n,), "bool")
